@@ -193,5 +193,7 @@ def run(ck):
             for e in g.calls(lambda e: (e.get("callee") or "") in ("strtol", "std::strtol", "strtoul", "std::strtoul", "strtoll", "std::strtoll", "strtoull", "std::strtoull"))
             if len(e.get("args", [])) > 2 and e["args"][2].get("const") == 16]
     wrt = lib.single(prog, H + "ResponseStream::write")
-    hexw = any(any((a.get("t") or "").endswith("std::hex") or (a.get("t") or "") == "std::hex" for a in e.get("args", [])) for e in wrt.events("call"))
+    # std::hex inserted by ResponseStream::write itself or by the private helper of the stream it frames chunks with
+    hexw = any(any((a.get("t") or "").endswith("std::hex") or (a.get("t") or "") == "std::hex" for a in args)
+               for _e, args in lib.flat_calls(prog, wrt, lambda g_: g_.is_lambda or g_.cls == H + "ResponseStream"))
     ck.ob("C02-R4", "chunk-size:hex-vs-base16", bool(rd16) and hexw, cp.loc, cp, "written with std::hex, read with strtol(..., 16)")
